@@ -1,7 +1,7 @@
 (* Correspondence for C11: histories of SharedMemory operations (incl. nested contexts), the
    real interpreter::resize_memory with a real Gas, and the return-data window through the
    real Interpreter::insert_call_outcome. *)
-From RevmV Require Export Base.Word Model.Memory Spec.MemorySpec Corr.Common.
+From RevmV Require Export Base.Word Model.Memory Model.MemoryOps Spec.MemorySpec Corr.Common.
 Local Open Scope Z_scope.
 
 Inductive cop :=
@@ -114,11 +114,293 @@ Fixpoint a_check (fs : aframes) (h : list cop) (t : list obs) : bool :=
   | _, _ => false
   end.
 
-Record case := mkCase { c_ops : list cop; c_obs : list obs }.
+(* ================================================================ second stream (driver c11p)
+   Real programs on a real Evm: every instruction that touches memory is observed through an
+   Inspector (step / step_end), nested frames through call / initialize_interp / call_end.
+   The events of one transaction, in execution order:
+     TOp probe gas_before op obs   one instruction of the current frame;
+          obs = [len before; digest before (-1 unless probe); gas after; instruction_result;
+                 len after; digest after (-1 for MSIZE); value pushed (MLOAD, MSIZE); digest of
+                 the LOG data]
+     TEnter code obs               the CALL in flight got an interpreter frame running [code];
+                                   obs = [digest of its input; length of its input]
+     TDirect class out obs         the CALL in flight was answered without a frame (precompile,
+                                   account without code): observed result and output; obs = [0]
+     TExit endflag obs             the current frame ended; endflag 1 = it halted on an
+                                   instruction that is not observed (out of gas on a PUSH);
+                                   obs = [instruction_result; digest of the output; its length; 0] *)
+Inductive tev :=
+| TOp (probe : bool) (gas_before : Z) (o : pop) (obs : list Z)
+| TEnter (code : list Z) (obs : list Z)
+| TDirect (class : Z) (out : list Z) (obs : list Z)
+| TExit (endflag : Z) (obs : list Z).
+Definition ev_obs (e : tev) : list Z :=
+  match e with TOp _ _ _ o | TEnter _ o | TDirect _ _ o | TExit _ o => o end.
+
+Definition pfocus (o : pop) : Z :=
+  match o with
+  | PMload off | PMstore off _ | PMstore8 off _ | PKeccak off _ | PLog _ off _ | PReturn off _ | PRevert off _ => off
+  | PMcopy d _ _ => d
+  | PCalldatacopy m _ _ | PCodecopy m _ _ | PReturndatacopy m _ _ => m
+  | PCall _ _ _ oo _ => oo
+  | PMsize | PStop => 0
+  end.
+Definition is_msize (o : pop) : bool := match o with PMsize => true | _ => false end.
+Definition is_log (o : pop) : bool := match o with PLog _ _ _ => true | _ => false end.
+Definition call_window (o : pop) : Z * Z := match o with PCall _ _ _ oo ol => (oo, ol) | _ => (0, 0) end.
+
+(* --- model side: SharedMemory with checkpoints, one [fenv] per live frame *)
+Record pframe := mkPF { pf_env : fenv; pf_win : Z * Z }.
+Record pstate := mkPS { ps_mem : smem; ps_frames : list pframe;
+                        ps_pend : option (list Z);          (* input of the CALL in flight *)
+                        ps_fin : option (Z * list Z) }.     (* result of the finished top frame *)
+Definition set_retbuf (f : pframe) (r : list Z) : pframe :=
+  mkPF (mkEnv (e_input (pf_env f)) (e_code (pf_env f)) r) (pf_win f).
+
+Definition m_event (s : pstate) (ev : tev) : option (pstate * list Z) :=
+  match ev with
+  | TOp probe gb o _ =>
+    match ps_frames s, ps_pend s, ps_fin s with
+    | f :: rest, None, None =>
+      let m := ps_mem s in
+      let r := exec (pf_env f) m gb o in
+      let m' := o_mem r in
+      let pred := [mlen m; (if probe then mem_digest (ctx m) (pfocus o) else -1); o_gas r; o_res r; mlen m';
+                   (if is_msize o then -1 else mem_digest (ctx m') (pfocus o)); o_val r;
+                   (if is_log o && (o_res r =? 0) then dig (o_data r) 7 else 0)] in
+      let s' := if o_res r =? R_Continue then mkPS m' (f :: rest) None None
+                else if o_res r =? R_CallOrCreate then mkPS m' (mkPF (pf_env f) (call_window o) :: rest) (Some (o_data r)) None
+                else mkPS m' (f :: rest) None (Some (o_res r, o_data r)) in
+      Some (s', pred)
+    | _, _, _ => None
+    end
+  | TEnter code _ =>
+    match ps_pend s with
+    | Some input => Some (mkPS (child_enter (ps_mem s)) (mkPF (mkEnv input code []) (0, 0) :: ps_frames s) None None,
+                          [dig input 7; zlen input])
+    | None => None
+    end
+  | TDirect class out _ =>
+    match ps_pend s, ps_frames s with
+    | Some _, f :: rest =>
+      let '(m', p) := call_outcome_mem (ps_mem s) (fst (pf_win f)) (snd (pf_win f)) class out in
+      Some (mkPS m' (set_retbuf f out :: rest) None None, [if p then 1 else 0])
+    | _, _ => None
+    end
+  | TExit endflag obs =>
+    match ps_frames s, ps_pend s with
+    | _ :: rest, None =>
+      let fin := if endflag =? 1
+                 then (match ps_fin s with
+                       | None => let c := nth 0 obs 0 in if is_ok c || is_revert c then None else Some (c, [])
+                       | Some _ => None end)
+                 else ps_fin s in
+      match fin with
+      | None => None
+      | Some (c, out) =>
+        match rest with
+        | [] => Some (mkPS (free_context (ps_mem s)) [] None None, [c; dig out 7; zlen out; 0])
+        | p :: rest' =>
+          let '(m', pn) := child_exit (ps_mem s) (fst (pf_win p)) (snd (pf_win p)) c out in
+          Some (mkPS m' (set_retbuf p out :: rest') None None, [c; dig out 7; zlen out; if pn then 1 else 0])
+        end
+      end
+    | _, _ => None
+    end
+  end.
+
+(* index of the first event the model does not reproduce; -1 = all reproduced *)
+Fixpoint m_run (s : pstate) (evs : list tev) (i : Z) : Z :=
+  match evs with
+  | [] => -1
+  | ev :: r =>
+    match m_event s ev with
+    | None => i
+    | Some (s', pred) => if zlist_eqb pred (ev_obs ev) then m_run s' r (i + 1) else i
+    end
+  end.
+(* run_the_loop: SharedMemory::new(); new_context() for the first frame *)
+Definition m_init (calldata code : list Z) : pstate :=
+  mkPS (new_context mem_new) [mkPF (mkEnv calldata code []) (0, 0)] None None.
+
+(* --- specification side (the property's clauses, unbounded integers, no shared buffer):
+   every frame owns its byte list; an instruction that touches [off, off+len) with len > 0
+   makes the memory max(old, 32 * ceil((off+len)/32)) bytes long by appending zeros and pays
+   static + C_mem(new words) - C_mem(old words); it succeeds iff that is at most the gas it has
+   (and, for RETURNDATACOPY, the source range lies inside the return data); a failing instruction
+   ends the frame and may at most have grown the memory by zeros it paid for.  A child frame starts empty; its result touches the parent only
+   in [out_off, out_off + min(out_len, |ret|)). *)
+Record aframe := mkAF { af_mem : list Z; af_input : list Z; af_code : list Z; af_ret : list Z;
+                        af_win : Z * Z; af_pend : option (list Z); af_fin : option (Z * list Z) }.
+Definition a_sub (f : list Z) (off len : Z) : list Z := zfirstn len (zskipn (Z.min off (zlen f)) f).
+Definition a_be32 (v : Z) : list Z := map (fun i => (v / 256 ^ (31 - Z.of_nat i)) mod 256) (seq 0 32).
+Definition a_word (bs : list Z) : Z := fold_left (fun a b => 256 * a + b) bs 0.
+Definition a_ranges (o : pop) : list (Z * Z) :=
+  match o with
+  | PMload off | PMstore off _ => [(off, 32)]
+  | PMstore8 off _ => [(off, 1)]
+  | PMsize | PStop => []
+  | PMcopy d s l => [(d, l); (s, l)]
+  | PCalldatacopy m _ l | PCodecopy m _ l | PReturndatacopy m _ l => [(m, l)]
+  | PKeccak off l | PLog _ off l | PReturn off l | PRevert off l => [(off, l)]
+  | PCall _ io il oo ol => [(io, il); (oo, ol)]
+  end.
+Definition a_need (o : pop) : Z :=
+  fold_left (fun a r => if snd r =? 0 then a else Z.max a (fst r + snd r)) (a_ranges o) 0.
+(* static gas of the instruction (Yellow Paper appendix G / EIP-5656 / EIP-2929 warm access) *)
+Definition a_static (o : pop) : Z :=
+  match o with
+  | PMload _ | PMstore _ _ | PMstore8 _ _ => 3
+  | PMsize => 2
+  | PMcopy _ _ l | PCalldatacopy _ _ l | PCodecopy _ _ l | PReturndatacopy _ _ l => 3 + 3 * words_spec l
+  | PKeccak _ l => 30 + 6 * words_spec l
+  | PLog n _ l => 375 + 375 * n + 8 * l
+  | PReturn _ _ | PRevert _ _ | PStop => 0
+  | PCall _ _ _ _ _ => 100
+  end.
+(* the source range of RETURNDATACOPY must lie inside the return data (EIP-211) *)
+Definition a_src_ok (fr : aframe) (o : pop) : bool :=
+  match o with PReturndatacopy _ d l => d + l <=? zlen (af_ret fr) | _ => true end.
+(* contents after the instruction, [f] already grown *)
+Definition a_apply (fr : aframe) (f : list Z) (o : pop) : option (list Z) :=
+  let copy_in m d l data := if l =? 0 then Some f else a_splice f m (pad_to (a_sub data d l) l) in
+  match o with
+  | PMstore off v => a_splice f off (a_be32 v)
+  | PMstore8 off v => a_splice f off [v mod 256]
+  | PMcopy d s l => if l =? 0 then Some f else a_splice f d (a_sub f s l)
+  | PCalldatacopy m d l => copy_in m d l (af_input fr)
+  | PCodecopy m d l => copy_in m d l (af_code fr)
+  | PReturndatacopy m d l => copy_in m d l (af_ret fr)
+  | _ => Some f
+  end.
+Definition a_window (f : list Z) (win : Z * Z) (class : Z) (ret : list Z) : option (list Z) :=
+  let v := zfirstn (Z.min (snd win) (zlen ret)) ret in
+  if ((0 <=? class) && (class <=? 4)) || ((16 <=? class) && (class <=? 21))
+  then match v with [] => Some f | _ => a_splice f (fst win) v end
+  else Some f.
+Definition a_set_ret (p : aframe) (f : list Z) (ret : list Z) : aframe :=
+  mkAF f (af_input p) (af_code p) ret (0, 0) None None.
+
+Definition a_event (fs : list aframe) (ev : tev) : option (list aframe) :=
+  match ev with
+  | TOp probe gb o [lb; db; ga; res; la; da; val; aux] =>
+    match fs with
+    | fr :: rest =>
+      match af_pend fr, af_fin fr with
+      | None, None =>
+        let f := af_mem fr in
+        let need := a_need o in
+        let new_len := Z.max lb (32 * words_spec need) in
+        let cost := a_static o + mem_spec (new_len / 32) - mem_spec (lb / 32) in
+        let afford := (cost <=? gb) && a_src_ok fr o in
+        let dg x := mem_digest x (pfocus o) in
+        (* size and contents seen before the instruction are the frame's own *)
+        if negb ((lb =? zlen f) && (if db =? -1 then negb probe else db =? dg f) && (la mod 32 =? 0) && (lb <=? la) && (0 <=? ga) && (ga <=? gb))
+        then None
+        else if (res =? 0) || (res =? 1) || (res =? 2) || (res =? 16) || (res =? 32) then
+          (* succeeded: must have been affordable; exact size, exact charge, contents *)
+          if negb afford then None else
+          match a_apply fr (f ++ zeros (new_len - zlen f)) o with
+          | None => None
+          | Some f' =>
+            let fwd := match o with PCall garg _ _ _ _ => let r := gb - cost in Z.min garg (r - r / 64) | _ => 0 end in
+            let okc := (la =? new_len) && (gb - ga =? cost + fwd) && (if is_msize o then da =? -1 else da =? dg f') in
+            let okv := match o with
+                       | PMload off => (val =? a_word (a_sub f' off 32)) && (res =? 0)
+                       | PMsize => (val =? la) && (res =? 0)
+                       | PLog _ off l => (aux =? dig (a_sub f' off l) 7) && (res =? 0)
+                       | PReturn _ _ => res =? 2 | PRevert _ _ => res =? 16 | PStop => res =? 1
+                       | PCall _ _ _ _ _ => res =? 32
+                       | _ => res =? 0
+                       end in
+            if negb (okc && okv) then None else
+            match o with
+            | PReturn off l | PRevert off l =>
+                Some (mkAF f' (af_input fr) (af_code fr) (af_ret fr) (0, 0) None (Some (res, a_sub f' off l)) :: rest)
+            | PStop => Some (mkAF f' (af_input fr) (af_code fr) (af_ret fr) (0, 0) None (Some (res, [])) :: rest)
+            | PCall _ io il oo ol =>
+                Some (mkAF f' (af_input fr) (af_code fr) (af_ret fr) (oo, ol) (Some (a_sub f' io il)) None :: rest)
+            | _ => Some (mkAF f' (af_input fr) (af_code fr) (af_ret fr) (0, 0) None None :: rest)
+            end
+          end
+        else
+          (* failed: only allowed when it could not be afforded; the frame is dead, but even so its
+             memory may only have grown by zeros, within what the instruction asked for, and paid for
+             (CALL grows for its input range before it fails on the output range or the access cost) *)
+          if afford then None
+          else if negb ((la <=? new_len) && (mem_spec (la / 32) - mem_spec (lb / 32) <=? gb - ga)) then None
+          else if negb (if is_msize o then da =? -1 else da =? dg (f ++ zeros (la - lb))) then None
+          else Some (mkAF (f ++ zeros (la - lb)) (af_input fr) (af_code fr) (af_ret fr) (0, 0) None (Some (res, [])) :: rest)
+      | _, _ => None
+      end
+    | [] => None
+    end
+  | TOp _ _ _ _ => None
+  | TEnter code [di; li] =>
+    match fs with
+    | fr :: rest =>
+      match af_pend fr with
+      | Some input =>
+        if (di =? dig input 7) && (li =? zlen input)
+        then Some (mkAF [] input code [] (0, 0) None None :: fr :: rest)   (* the child starts empty *)
+        else None
+      | None => None
+      end
+    | [] => None
+    end
+  | TEnter _ _ => None
+  | TDirect class out _ =>
+    match fs with
+    | fr :: rest =>
+      match af_pend fr, a_window (af_mem fr) (af_win fr) class out with
+      | Some _, Some f' => Some (a_set_ret fr f' out :: rest)
+      | _, _ => None
+      end
+    | [] => None
+    end
+  | TExit endflag [class; dout; lout; _] =>
+    match fs with
+    | fr :: rest =>
+      let fin := if endflag =? 1
+                 then (if ((0 <=? class) && (class <=? 4)) || ((16 <=? class) && (class <=? 21)) then None else Some (class, []))
+                 else af_fin fr in
+      match fin, af_pend fr with
+      | Some (c, out), None =>
+        if negb ((c =? class) && (dout =? dig out 7) && (lout =? zlen out)) then None else
+        match rest with
+        | [] => Some []
+        | p :: rest' =>
+          match a_window (af_mem p) (af_win p) c out with
+          | Some f' => Some (a_set_ret p f' out :: rest')
+          | None => None
+          end
+        end
+      | _, _ => None
+      end
+    | [] => None
+    end
+  | TExit _ _ => None
+  end.
+Fixpoint a_run (fs : list aframe) (evs : list tev) : bool :=
+  match evs with
+  | [] => true
+  | ev :: r => match a_event fs ev with Some fs' => a_run fs' r | None => false end
+  end.
+
+Inductive case :=
+| mkCase (c_ops : list cop) (c_obs : list obs)
+| PCase (calldata code : list Z) (evs : list tev).
 
 Definition verdict (c : case) : Z :=
-  let model_ok := list_eqb obs_eqb (m_trace mem_new (c_ops c)) (c_obs c) in
-  let spec_ok := a_check [[]] (c_ops c) (c_obs c) in
-  if model_ok then (if spec_ok then 0 else 2) else (if spec_ok then 1 else 2).
+  match c with
+  | mkCase ops obs =>
+    let model_ok := list_eqb obs_eqb (m_trace mem_new ops) obs in
+    let spec_ok := a_check [[]] ops obs in
+    if model_ok then (if spec_ok then 0 else 2) else (if spec_ok then 1 else 2)
+  | PCase calldata code evs =>
+    let model_ok := m_run (m_init calldata code) evs 0 =? -1 in
+    let spec_ok := a_run [mkAF [] calldata code [] (0, 0) None None] evs in
+    if model_ok then (if spec_ok then 0 else 2) else (if spec_ok then 1 else 2)
+  end.
 
 Definition failures (l : list case) := Common.failures verdict l.
